@@ -285,6 +285,44 @@ def scn_cancelrace(ctx):
     return True
 
 
+def scn_nested_behind_blocking_throttle(ctx):
+    """thread_pool(2).with_throttle(1, block=True).with_retry(): while callable A runs, B is queued in the
+    throttle and the retry layer's thread is inside the throttle's (blocking) submit() for C; then A submits
+    D to the retry executor - which only has to queue a job and return."""
+    import threading
+    from more_executors import Executors
+    ev = ctx.ev
+    ex = Executors.thread_pool(max_workers=2).with_throttle(1, block=True).with_retry(max_attempts=1)
+    go = threading.Event()
+    inner = []
+
+    def A():
+        go.wait(LIMIT)
+        ev.add("nested_submit_call")
+        inner.append(ex.submit(lambda: "leaf"))
+        ev.add("nested_submit_ret")
+        return "a"
+
+    fa = ex.submit(A)
+    sched.vsleep_until(sched.now() + 1)
+    fb = ex.submit(lambda: "b")
+    sched.vsleep_until(sched.now() + 1)
+    fc = ex.submit(lambda: "c")
+    sched.vsleep_until(sched.now() + 1)
+    go.set()
+    wait_done(fa, sched.now() + LIMIT)
+    ctx.check("nested-submit-returns", bool(ev.of("nested_submit_ret")), "the nested submit() from callable A never returned (retry thread inside the blocking throttle's submit, holding the retry executor's lock)")
+    ctx.check("outer-future-completes", fa.done(), "A pending")
+    for nm, f in (("b", fb), ("c", fc)):
+        wait_done(f, sched.now() + LIMIT)
+        ctx.check("queued-futures-complete", f.done(), "%s pending" % nm)
+    ctx.reach("blocking-throttle-nested")
+    if fa.done():
+        s_ = spawn("closer", lambda: ex.shutdown(wait=True))
+        s_.join(LIMIT)
+    return True
+
+
 SINGLE = ["map", "flat_map", "retry", "poll", "throttle", "throttle_block", "timeout", "cancel_on_shutdown"]
 ASSUMPTIONS = ["a client call that has not returned after 400 virtual seconds (no timer of the library is longer than 30 s; stacks use timeouts of 1000 s only for TimeoutExecutor deadlines) is reported, as is any state in which no thread can run",
                "lock-order cycles: explored directly (preemption-bounded) and, per explored execution, predicted from its lock trace by engine L (z3 query over event orders, then a directed replay); only a deadlock reproduced on the real code is reported",
@@ -314,6 +352,7 @@ def plan(tier, seed):
                 items.append(dict(scenario="nested", params=dict(layers=[ln], base=base, site="callable", extra_client=True), bounds=dict(lpredict=True, P=1 if q else 2)))
         for ln in SINGLE:
             items.append(dict(scenario="clients", params=dict(layers=[ln], base=base, prog="A"), bounds=dict(lpredict=True, P=0 if q else 1)))
+    items.append(dict(scenario="nested_behind_blocking_throttle", params=dict(), bounds=dict(P=0, max_paths=500 if q else 40000)))
     # cancel of an outer-layer future racing with a cancel of the work below it by someone else
     items.append(dict(scenario="cancelrace", params=dict(layers=["map"], rival="sibling"), bounds=dict(lpredict=True, P=1 if q else 2)))
     items.append(dict(scenario="cancelrace", params=dict(layers=["timeout_short", "map"], rival="timeout"), bounds=dict(lpredict=True, P=1 if q else 2)))
